@@ -233,16 +233,27 @@ def fixed_cases(term):
 
 # ------------------------------------------------------------------------------------------
 def run_impl(cases):
+    """8 probe processes side by side (a script that hangs costs its 5 s time limit)"""
+    from concurrent.futures import ThreadPoolExecutor
     lines = ['%d %d %d %s' % (i, NB, NU, ' '.join(str(x) for x in flat(ops))) for i, (_, ops) in enumerate(cases)]
-    rc, out, dt = sh([bin_path('p_c15')], input=('\n'.join(lines) + '\n').encode(), timeout=1500)
-    res = {}
-    for l in out.split('\n'):
-        p = l.split()
-        if len(p) > 4 and p[0].isdigit():
-            try:
-                res[int(p[0])] = [int(x) for x in p[1:]]
-            except ValueError:
-                pass
+    nsh = 8 if len(lines) > 64 else 1
+    shards = [lines[k::nsh] for k in range(nsh)]
+
+    def one(sh_lines):
+        return sh([bin_path('p_c15')], input=('\n'.join(sh_lines) + '\n').encode(), timeout=1500)
+    with ThreadPoolExecutor(max_workers=nsh) as ex:
+        outs = list(ex.map(one, shards))
+    res, rc, out = {}, 0, ''
+    for r, o, _ in outs:
+        rc = rc or r
+        out += o
+        for l in o.split('\n'):
+            p = l.split()
+            if len(p) > 4 and p[0].isdigit():
+                try:
+                    res[int(p[0])] = [int(x) for x in p[1:]]
+                except ValueError:
+                    pass
     return rc, res, out
 
 
